@@ -87,7 +87,11 @@ func preamble(max int) string {
 	case 4:
 		return "<%# " + filler(max) + " %>" + filler(1)
 	case 5: // a line comment ends at the first line break
-		return "<% # " + vrt.BytesIn(vrt.IntRange(0, max), " x#") + "\n let q = 1 %>" + filler(1)
+		end := "\n"
+		if vrt.Bool() {
+			end = "\r\n" // one line break, not two
+		}
+		return "<% # " + vrt.BytesIn(vrt.IntRange(0, max), " x#") + end + " let q = 1 %>" + filler(1)
 	case 6: // white space inside a code tag
 		ws := func() string { return vrt.BytesIn(vrt.IntRange(0, max), "\n\r ") }
 		return "<%" + ws() + " let q = 1 " + ws() + "%>" + filler(1)
